@@ -26,6 +26,9 @@ func Parse(tmpl string) (Compiler, error) {
 		return template{}, InvalidTemplateError{tmpl: tmpl, msg: "NUL character in template"}
 	}
 	tokens, verb := tokenize(tmpl[1:])
+	if err := expectPChars(verb); err != nil {
+		return template{}, InvalidTemplateError{tmpl: tmpl, msg: fmt.Sprintf("invalid verb: %v", err)}
+	}
 
 	p := parser{tokens: tokens, exactSlash: true}
 	segs, err := p.topLevelSegments()
